@@ -16,6 +16,12 @@ CLAIMS = {
             "class facts + ORD/CNT/MPT/WHO/ALIAS rules over clang AST/CFG", "3 C04"),
     "C05": ("who-may-relocate rules: only the destructor frees blocks, placement-new only into fresh slots, no payload assignment between nodes, swap is a complete pointer hand-over, pool containers instantiate fully for a non-copyable element and cannot be copied (compile witnesses), pool node/element offsets agree with the Item layout; these are the code-shape facts from which address stability follows, the per-history statement itself is NOT decided",
             "WHO/DOM effect rules + compile witnesses", "3 C05"),
+    "C06": ("detach-before-write discipline on every String member: writes to the text block dominated by detach()/exclusive-owner test/fresh allocation, in-place detach only for count one and sufficient capacity (finite valuations), length stores paired with NUL stores, allocation shape sizeof(Data)+(c+1) with capacity c, sharing only of counted blocks, C-string view terminator check, ALIAS rule for self-referential arguments (2 known findings); byte equality with a reference string and search/format results are NOT decided",
+            "DOM/PAIRF/FIN/ALIAS rules over clang AST/CFG", "3 C06"),
+    "C07": ("tag<->payload table read from the constructors, every payload cast dominated by the matching tag (valuation over all tags), clear() exhaustive, mutable access to the current payload only for ref<=1 and matching tag (valuations), clones built in the fresh block, no pointer comparison of class operands, reference-count idioms, self-assignment order; coercion tables and equality over all values are NOT decided",
+            "TAG/FIN/DOM rules over clang AST/CFG", "3 C07"),
+    "C09": ("the reference-counting safety argument reduced to code-shape facts on String, Variant, Xml::Variant, RefCount::Ptr: atomic-only counter updates, release only under `Atomic::decrement(..) == 0` evaluated in the condition, increment on every share, release before overwrite, acquire before release, paired handle fields, rule of three, clone target, exclusive-owner valuations; these imply exactly-once release under every interleaving of threads owning distinct handles, given full-barrier __sync builtins; weak-memory effects and misuse of one handle by two threads are NOT decided",
+            "WHO/DOM/MPT/ORD/PAIRF/FIN rules over clang AST/CFG", "3 C09"),
     "C08": ("path and pairing rules over every Buffer member: terminator after every end update on owning paths, ownership<->capacity pairing, allocation X+1 with _capacity X, release/re-seat pairing, complete swap, rule of three, and linear-inequality entailment (own Fourier-Motzkin over dominating guards + class invariant) that every copy/move target and terminator store lies inside the allocation; content equality with a reference byte queue is NOT decided",
             "MPT/PAIRF path rules + linear-inequality abstract domain over clang AST/CFG", "3 C08"),
 }
